@@ -2,6 +2,7 @@
 from ..events import all_events, construct_of
 from ..report import render_path
 from .. import e3 as e3mod
+from .. import roles as rolesmod
 from . import shared
 
 LEVEL = "other"
@@ -67,8 +68,8 @@ def run(ctx):
     ctx.require("R10.inv", n["inv"], 4, "invariant obligations")
     ns = 0
     for f in e3.may_raise():
-        if f.path is not None and f.path.entry.endswith("expire") or \
-                any("prune" in s for s in f.event["stack"]):
+        if f.path is not None and model.is_timer_entry(f.path.entry) or \
+                any(s in (rolesmod.get(model).sweep_all, rolesmod.get(model).sweep_app) for s in f.event["stack"]):
             ns += 1
             ctx.ob("R10.sweep", "may-raise %s at %s" % (f.may_raise, f.construct), False,
                    f.site, f.detail + "; prune_all_apps has no per-app isolation, so the "
